@@ -232,7 +232,8 @@ func (c c08) Case(w *core.WCtx, payload json.RawMessage) core.Result {
 		}
 		d := filepath.Join(base, fmt.Sprintf("s%d_t%d", slot, code))
 		mustMkdir(d)
-		if err := writeTable(d, c08Table(code, slot, cs.Opts), tblW{Writer: "stream", DataComp: 2, IndexComp: 0, Cmp: fam.cmp}); err != nil {
+		// every second table is written with a bloom filter sized for a single element (more keys than expected elements)
+		if err := writeTable(d, c08Table(code, slot, cs.Opts), tblW{Writer: "stream", DataComp: 2, IndexComp: 0, Cmp: fam.cmp, BloomN: uint64(slot % 2)}); err != nil {
 			panic(fmt.Sprintf("cannot build input table: %v", err))
 		}
 		built[key] = d
